@@ -244,6 +244,30 @@ def couplers(plan, run, violate, stats):
             violate('coupler_composition', 'penalty or_ is %r where members are %r, %r at %r' % (po, p1(x), p2(x), x), where='coupler')
         if (pn > 0) != (c1(x) < 0):
             violate('coupler_composition', 'penalty not_ is %r where the condition is %r at %r' % (pn, c1(x), x), where='coupler')
+    # the same combined penalty evaluated at several points AT THE SAME TIME (a map that runs its items in threads: real threads, one
+    # running at a time, pre-empted at seeded line events inside mystic): every evaluation still is the combinator's definition
+    from .. import maps
+    r3 = sub_rng(plan['seed'], 'couplers.threads')
+    conds = []
+    for _ in range(3):
+        w_ = [r3.choice([-1.0, 0.0, 1.0, 2.0]) for _ in range(dim)]; b_ = gen.r2(r3, -2, 2)
+        conds.append(lambda x, w=w_, b=b_: sum(wi * xi for wi, xi in zip(w, x)) - b)
+    pens = [mp.quadratic_inequality(c_)(lambda x: 0.0) for c_ in conds]
+    combos = {'or_': cp.or_(*pens), 'and_': cp.and_(*pens), 'not_': cp.not_(pens[0])}
+    pts = [[gen.r2(r3, -4, 4) for _ in range(dim)] for _ in range(r3.randint(2, 6))]
+    for name in ('or_', 'and_', 'not_'):
+        F = combos[name]
+        serial = [F(list(x)) for x in pts]
+        m_ = maps.SimMap({'mode': 'threads', 'preempt_lines': r3.choice([0.1, 0.3, 0.6]), 'salt': 'c17' + name})
+        conc = m_(F, [list(x) for x in pts])
+        stats['coupler_checks'] += len(pts); stats['concurrent_evaluations'] = stats.get('concurrent_evaluations', 0) + len(pts)
+        for x, a, b in zip(pts, serial, conc):
+            z = [p_(x) == 0 for p_ in pens]
+            want0 = any(z) if name == 'or_' else (all(z) if name == 'and_' else None)
+            if a != b or (want0 is not None and (b == 0) != want0):
+                violate('coupler_composition', 'penalty %s evaluated at %d points concurrently (threads map, seeded pre-emption): at %r it gives %r, '
+                        'evaluated alone %r; members are zero there: %r' % (name, len(pts), x, b, a, z), where='coupler', concurrent=True)
+                break
     # one coupler object used for several functions (bind = inner(c); F = bind(f); G = bind(g)): every coupled function keeps meaning
     # its own composition whatever was coupled before or after it -- checked in a seeded interleaving of couplings and calls
     r2 = sub_rng(plan['seed'], 'couplers.reuse')
